@@ -169,7 +169,10 @@ func c05Static(t *sim.T) *sim.Violation {
 	if t.Chance(1, 3) {
 		var d string
 		var nz []byte
-		switch t.Choose(4) {
+		switch t.Choose(5) {
+		case 4:
+			nz, d = gen.ZipForgedSizes(t, m.Feed, zo)
+			t.Fault("zip-declared-size-lies")
 		case 0, 1:
 			nz, d = gen.MutateBytes(t, z, z)
 			t.Fault("byte-fault")
@@ -590,6 +593,13 @@ func c05Realtime(t *sim.T) *sim.Violation {
 		m, n := c05BuildFeed(t, false)
 		faults = n
 		b = gen.MarshalFeed(m)
+		if t.Chance(1, 6) {
+			if nb, d := gen.ReorderWire(t, b); d != "" {
+				b = nb
+				t.Logf("wire presentation: %s", d)
+				t.Fault("non-canonical-wire-order")
+			}
+		}
 		if t.Chance(1, 3) {
 			other := b
 			nb, d := gen.MutateBytes(t, b, other)
